@@ -177,7 +177,23 @@ func c10Setup(c C10Case) (stackage.Stack, *ListModel, uintptr) {
 	return s, m, id
 }
 
-func slotIDs(s stackage.Stack) string { return fmt.Sprint(realIDs(s)) }
+// slotIDs renders everything the lock protects: the slot vector and the configuration record
+// (the lock bookkeeping included), so that any write made while nobody holds the lock shows.
+func slotIDs(s stackage.Stack) string {
+	d := stackage.VerifDump(s)
+	var b strings.Builder
+	slots, _ := d["slots"].([]any)
+	for i := 1; i < len(slots); i++ {
+		if sm, ok := slots[i].(map[string]any); ok {
+			fmt.Fprintf(&b, "%v|", sm["val"])
+		} else {
+			b.WriteString("nil|")
+		}
+	}
+	cfg := cfgOf(d)
+	fmt.Fprintf(&b, " cfg: ldr=%v opt=%v cap=%v ord=%v typ=%v err=%v mtx=%v id=%v", cfg["ldr"], cfg["opt"], cfg["cap"], cfg["ord"], cfg["typ"], cfg["err"], cfg["mtxptr"], cfg["id"])
+	return b.String()
+}
 
 type c10Outcome struct {
 	results    [][]c10Result
@@ -675,7 +691,7 @@ func init() {
 		ID: "C10",
 		Rule: "(A) deterministic, harness-owned schedules: 2-3 goroutines x 1-3 mutators (Push, Pop, Insert, Remove, Replace, Swap, Reverse, Reset) on a shared mutex-enabled stack of length 0..3, LIFO/FIFO, with/without capacity; a cooperative scheduler (verifPoint hook) parks each goroutine at every lock.want and at every operation boundary (and, in half of the generated cases and part of the enumerated ones, also right after every unlock, so that code running after the critical section is interleaved too) and the schedule picks who continues. " +
 			"Enumeration: ALL schedules of 2 goroutines x <=2 ops over a 7-10 op alphabet on lengths 0..2 (quick: all single-op pairs and a deterministic seventh of the two-op pairs; thorough: all pairs plus 3x1). rapid: random programs and schedules. " +
-			"Oracle per execution: no panic; no self-deadlock, no parked-everybody deadlock, no lock leaked past an operation (from lock.held/lock.released ownership, deterministically); slot vector at lock.held equals the one at the previous lock.released (content changes only under the lock); " +
+			"Oracle per execution: no panic; no self-deadlock, no parked-everybody deadlock, no lock leaked past an operation (from lock.held/lock.released ownership, deterministically); slot vector and configuration record (lock bookkeeping included) at lock.held equal those at the previous lock.released (shared state changes only under the lock); " +
 			"IsInit/kind/capacity/FIFO intact, Len<=capacity; every returned or remaining element was pushed or initial, at most once; brute-force linearizability: some order consistent with each goroutine's program reproduces every return value and the final content on the list model. " +
 			"(B) free-running: the same generated programs on real parallel goroutines behind a start barrier (10% of the cases; all cases in the -race stage), same history oracle, race reports keyed by the pair of top go-stackage frames. " +
 			"non-trivial = programs with length-sensitive and length-changing operations in different goroutines and a schedule that runs another goroutine between some goroutine's lock.want and lock.held; distinct = (programs, schedule)",
